@@ -18,7 +18,7 @@ pub const BODY_B: &str = "pragma solidity 0.7.6;\ncontract B {\n  using SafeMath
 const BODY_D: &str = "pragma abicoder v2;\ncontract D {\n  using SafeMath for uint256;\n  function h(\n    bytes memory first,\n    string memory second,\n    uint256[] memory third\n  ) external returns (uint256) {\n    return uint256(1).add(2).sub(1);\n  }\n}\n";
 const BODY_E0: &str = "pragma solidity 0.8.19;\ncontract Base {\n  uint256 fee;\n  address owner;\n  function setFee(uint256 f) external payable { fee = f; }\n}\n";
 pub const BODY_E1: &str = "pragma solidity 0.8.19;\ncontract Vault is Base {\n  uint256 shares;\n  function mint(uint256 s) external payable { shares = s; }\n}\ncontract Quoter {\n  function quote(uint256 a) external payable returns (uint256 fee) {\n    fee = a / 100;\n    address owner;\n    owner = msg.sender;\n    require(a > 0, \"part one \" \"part two\");\n  }\n}\n";
-pub const BODY_C: &str = "pragma solidity 0.8.3;\nstruct S { uint128 a; uint256 b; uint128 c; }\ncontract C {\n  uint256 constant K = 1;\n  uint256 never;\n  function _pub() public payable { }\n  function priv() private { bytes32 h = keccak256(abi.encode(never)); h; }\n  function w(bytes memory data) external payable { require(data.length > 0, \"short\"); }\n}\n";
+pub const BODY_C: &str = "pragma solidity 0.8.3;\nstruct S { uint128 a; uint256 b; uint128 c; }\ncontract C {\n  using SafeMath for uint256;\n  uint256 constant K = 1;\n  uint256 never;\n  function _pub() public payable { }\n  function priv() private { bytes32 h = keccak256(abi.encode(never)); h; }\n  function w(bytes memory data) external payable { require(data.length > 0, \"short\"); }\n  function both(uint256 a) external payable returns (uint256) {\n    require(a > 0, \"a revert string that is longer than thirty-two bytes\");\n    return a.add(1);\n  }\n}\n";
 
 pub fn files(tier: Tier) -> Vec<(String, String)> {
     // pairs of files with the same byte length but different line layouts are part of the alphabet
@@ -28,6 +28,7 @@ pub fn files(tier: Tier) -> Vec<(String, String)> {
         ("fb0".to_string(), format!("// same length\n{}", BODY_B)),
         ("fb1".to_string(), format!("{}// same length\n", BODY_B)),
     ];
+    // version 0.8.3: between the two version gates (0.8.0 and 0.8.4), so a pre-gate and a post-gate pattern both report
     v.push(("fc0".to_string(), BODY_C.to_string()));
     // no solidity pragma, SafeMath attached, several memory parameters on different lines
     v.push(("fd0".to_string(), BODY_D.to_string()));
